@@ -14,8 +14,9 @@
       inode ([C11_set_then_get]).  What that inode contains is C01's subject.
     - "a miss only if the entry was evicted": every other entry of the
       directory keeps its binding or disappears, whatever the write does
-      ([C11_others_keep_or_vanish]); which entries maintenance may remove is
-      C07 / C08 / C17.
+      ([C11_others_keep_or_vanish]), and nothing disappears at all when the
+      directory listed at most its capacity ([C11_no_eviction_within_capacity]);
+      which entries maintenance removes when it does is C07 / C08 / C17.
     - "a sharded cache never holds two copies of one key": for arbitrary
       responses, a sharded write renames / links onto the key's secondary-shard
       path exactly when its probe of that path said the key is there, and onto
@@ -30,7 +31,7 @@
     differential history runs against the map oracle (vlib/c11.py). *)
 From Coq Require Import List NArith ZArith String Bool Lia.
 From Kismet Require Import Pure.Hash FS.Fs FS.Prog Spec.Wp Ops.Ops Conc.Effect Proofs.HashProofs Proofs.NeverMasked
-  Proofs.KvFacts Seq.Plain Seq.Steps Seq.Bind Seq.Sane Proofs.KvSeq Proofs.KvShard.
+  Proofs.KvFacts Seq.Plain Seq.Steps Seq.Bind Seq.Sane Proofs.KvSeq Proofs.KvShard Proofs.KvTemp Proofs.KvCap.
 Import ListNotations.
 
 Theorem C11_sorted_pair : forall hash sec n, let '(a, b) := shard_ids hash sec n in a <> b.
@@ -109,6 +110,34 @@ Theorem C11_cache_set_then_get_bytes : forall cfg dir cap k v i0 D w o o2,
   let '(r2, w2, _, _) := run (cache_get cfg k) w1 o2 in
   forall fd, r2 = Ok (Some fd) -> fdino (w_fs w2) fd = Some i0 /\ data (w_fs w2) i0 = Some D.
 Proof. exact cache_set_then_get_bytes. Qed.
+
+(** The temp-file API ([set_temp_file] / [put_temp_file]): the source is the
+    caller's NamedTempFile, anywhere - typically inside the cache's own
+    [.kismet_temp], where the maintenance that precedes the publication may even
+    delete it (the call then fails): success still means the key's name is bound
+    to the temp file's inode (put: or left on exactly its old binding). *)
+Theorem C11_temp_file_api_binds : forall cfg dir cap k p fd (which : bool) i0 j0 w o,
+  s_writer cfg = Some (FPlain dir cap) ->
+  plainp dir = true -> valid_name (k_name k) = true -> plainp p = true ->
+  p <> dir ++ [k_name k] -> (forall q, dir <> p ++ q) ->
+  o_fault o = None -> names_plain (w_fs w) ->
+  name_of (w_fs w) p = Some i0 -> name_of (w_fs w) (dir ++ [k_name k]) = j0 ->
+  let '(r, w', _, _) := run (cache_write_temp which cfg k fd p) w o in
+  is_ok r = true ->
+  name_of (w_fs w') (dir ++ [k_name k]) = Some i0 \/ (which = false /\ name_of (w_fs w') (dir ++ [k_name k]) = j0 /\ j0 <> None).
+Proof. intros cfg dir cap k p fd which i0 j0 w o Hw Hb Hn Hp Hpd Ha. exact (temp_file_api_binds cfg dir cap Hw k p fd which Hb Hn Hp Hpd Ha i0 j0 w o). Qed.
+
+(** "Every disappearance of an entry is attributable to an eviction in a directory
+    that exceeded its capacity": if the directory lists at most [cap] visible
+    entries when a plain set / put starts, every other entry is bound afterwards
+    exactly as before (fault-free, listing in kernel order). *)
+Theorem C11_no_eviction_within_capacity : forall d name v (which : bool) f0 w o,
+  plainp (cd_base d) = true -> valid_name name = true -> plainp v = true -> (forall q, v <> cd_base d ++ q) ->
+  w_fs w = f0 -> o_fault o = None -> o_orders o = [] -> names_plain f0 ->
+  (N.of_nat (List.length (visible (children f0 (cd_base d)))) <= cd_cap d)%N ->
+  let '(_, w', _, _) := run (cd_publish (if which then insert_or_update else insert_or_touch) d name v) w o in
+  forall n, n <> name -> name_of (w_fs w') (cd_base d ++ [n]) = name_of f0 (cd_base d ++ [n]).
+Proof. intros d name v which f0 w o Hb Hn Hv Ho. exact (no_eviction_within_capacity d name v which Hb Hn Hv Ho f0 w o). Qed.
 
 Theorem C11_others_keep_or_vanish : forall d name v (which : bool) f0 w o,
   plainp (cd_base d) = true -> valid_name name = true -> plainp v = true -> w_fs w = f0 -> names_plain f0 ->
